@@ -20,7 +20,7 @@ def run(ctx, res):
         "BR raw byte offset: BB + 1 without an ASCII guard).  R1 every value stored in Token.byte_start/byte_end and every bound "
         "of a &source[..] slice is BB; R2 in every Token literal and in the merge step the slice bounds of `value` are the same "
         "expressions as byte_start/byte_end (an open upper bound pairs with source.len()), byte and char cursors are updated in "
-        "tandem; R3 start/end receive only character counts; R4 Token literals occur only in tokenizer.rs and tokenize returns "
+        "tandem; R3 start/end receive only character counts; R4 Token literals occur only in tokenizer.rs and tokenize returns (R5: every fresh entry into the start-delimiter state emits a token boundary, Element boundaries only after a completely matched end delimiter) "
         "the adjacent-Text merge of the scanned tokens.  Decides the consistency and boundary-ness of the two offset systems - "
         "not contiguity / coverage / non-emptiness as arithmetic facts about the fold.")
     res.trusted += ["char_indices yields char-boundary byte positions in increasing order", "driver fact extraction"]
@@ -170,12 +170,61 @@ def run(ctx, res):
     for r in early:
         if not any(any(x is r for x in T.nodes(c["body"])) for c in clos):
             res.add(Finding("C07.R4", fn, "early-return:" + T.render(r)[:60], "tokenize returns early with `%s`, bypassing the adjacent-Text merge" % T.render(r)[:80], loc=T.loc(r)))
+    token_boundaries(ctx, res, "C07.R5")
     # the char counter idiom
     cur = [k for k, v in res.extra["units_env"].items() if v == U.CH]
     if "current" in cur or cur:
         res.holds("C07.R3", fn, "char-counter", "counter(s) %s advance by literal 1 once per char_indices item" % cur)
     else:
         res.add(Finding("C07.R3", fn, "char-counter", "no character counter advancing by exactly 1 per character was found", loc=T.loc(b["tree"])))
+
+
+def token_boundaries(ctx, res, rule):
+    """Tag tokens begin with the start delimiter and end with the end delimiter: in get_state every transition that
+    freshly enters DelimiterStart emits a token boundary, and an Element boundary is emitted only when the end
+    delimiter has been matched completely."""
+    from .. import absint as A
+    P = ctx.lib
+    b = P.fn("tokenizer::get_state")
+    fn = fshort(b)
+    helper = P.fn("tokenizer::check_delimiter_start", required=False)
+    inline = [b["def_path"]] + ([helper["def_path"]] if helper else [])
+    adt = [a for p_, a in P.adts.items() if p_.endswith("tokenizer::State")]
+    if not adt:
+        res.cannot(rule, fn, "state-enum", "tokenizer::State not found", T.loc(b["tree"]))
+        return
+    n_fresh = n_elem = 0
+    for v in adt[0]["variants"]:
+        st = v["name"]
+        I = A.Interp(P, inline=inline, max_paths=400)
+        try:
+            outs = I.explore(lambda J, st=st, v=v: J.call_fn_body(b, [A.Sym("c"), A.Sym("delimiter_start"), A.Sym("delimiter_end"),
+                                                                       A.Variant("State::" + st, [A.Sym("rest")] if v["fields"] else [])]))
+        except A.Cannot as e:
+            res.cannot(rule, fn, "state:" + st, str(e), T.loc(b["tree"]))
+            continue
+        for o in outs:
+            val = o["value"]
+            if o["exit"] == "panic" or not isinstance(val, A.Tuple) or len(val.items) != 2:
+                continue
+            tk, nxt = val.items
+            fresh = isinstance(nxt, A.Variant) and nxt.name == "State::DelimiterStart" and nxt.args and A.show(nxt.args[0]) == "delimiter_start.chars()"
+            if fresh:
+                n_fresh += 1
+                if isinstance(tk, A.Variant) and tk.name == "Some":
+                    res.holds(rule, fn, "fresh-start-from:%s" % st)
+                else:
+                    res.add(Finding(rule, fn, "fresh-start-from:%s" % st, "from state %s a character that starts the start delimiter enters DelimiterStart without a token "
+                                    "boundary: the tag token would begin before its start delimiter" % st, loc=T.loc(b["tree"])))
+            if isinstance(tk, A.Variant) and tk.name == "Some" and tk.args and A.show(tk.args[0]).startswith("TokenKind::Element"):
+                n_elem += 1
+                done = o["decisions"].get("is_some(rest.next())") is False and st == "DelimiterEnd"
+                if done:
+                    res.holds(rule, fn, "element-boundary-from:%s" % st)
+                else:
+                    res.add(Finding(rule, fn, "element-boundary-from:%s" % st, "an Element token boundary is emitted from state %s before the end delimiter is matched completely" % st, loc=T.loc(b["tree"])))
+    res.floor(rule, "transitions that freshly enter DelimiterStart", n_fresh, 3)
+    res.floor(rule, "transitions that emit an Element boundary", n_elem, 1)
 
 
 def _judge(res, rule, fn, site, u, want, loc, what):
